@@ -12,7 +12,7 @@ import (
 func init() {
 	register("C17", Meta{
 		Explanation: "Structural necessary conditions of the delegate-key registry: (guards) the three index writes of the registering message are cut off from the entry by: the validator exists (StakingKeeper.Validator != nil); no validator holds the external address on that chain (the in-use scan over ValidatorExternalAddressKey returned nothing); no external address maps to the orchestrator on that chain; ValidateEthereumSignature(keccak(Marshal(DelegateKeysSignMsg{validator, n})), msg.EthSignature, address) == nil, where n = seq-1 (0 when seq == 0), seq = AccountKeeper.GetSequence(AccAddress(validator)), and the address verified is the address stored; (triple) all three indexes are written with the same (validator, orchestrator, external address) values on every success path; (self) MsgDelegateKeys.GetSigners derives from ValidatorAddress only; (writers) the three prefixes are written only by the registering handler and InitGenesis; (attribution) orchestrator -> validator resolution precedes the staking lookup in the signer resolver; (generator) keys-generator signs the same message type with the same fields and EIP-191 prefix.",
-		NotDecided: []string{"one-to-one-ness after re-registration histories beyond what the in-use scans guarantee", "that the signature verifies for that key only (secp256k1)"},
+		NotDecided:  []string{"one-to-one-ness after re-registration histories beyond what the in-use scans guarantee", "that the signature verifies for that key only (secp256k1)"},
 		Assumptions: commonAssumptions,
 	}, checkC17)
 }
